@@ -302,8 +302,9 @@ StringDictionaryHTFC::StringDictionaryHTFC(IteratorDictString *it,
 
     // The closing byte is part of the sequence: it must be the zero padding the
     // decoding table was built for (it is not written when the last string is
-    // a bucket header)
-    textStrings[bytesStrings] = 0;
+    // a bucket header); when bits of the last string are pending it is their byte
+    if (offset == 0)
+      textStrings[bytesStrings] = 0;
     bytesStrings++;
     xblStrings.push_back(bytesStrings);
     blStrings = new LogSequence(&xblStrings, bits(bytesStrings));
